@@ -86,7 +86,10 @@ def run_case(case):
     zMax = rng.choice([2 * pi * R0, rng.uniform(5, 50)])
     if case["iota"] in ("big", "bigneg"):
         zMax = 2 * pi * R0 * rng.choice([1, 2])
-    c = pg.make_constants(rMin=rng.uniform(0.1, 1.0), rMax=rng.uniform(3, 8), zMin=0.0, zMax=zMax, R0=R0,
+    rng2 = random.Random(case["seed"] ^ 0x5EED8)         # own generator: a z domain that does not start at 0 (only dz may matter)
+    zMin = rng2.choice([0.0, 0.0, -0.5 * zMax, rng2.uniform(-25, 25)])
+    zMax = zMin + zMax
+    c = pg.make_constants(rMin=rng.uniform(0.1, 1.0), rMax=rng.uniform(3, 8), zMin=zMin, zMax=zMax, R0=R0,
                           npts=[nr, nth, nz, 4], splineDegrees=[min(3, nr - 1), deg, min(3, nz - 1), 3], iota_fn=_iota_fn(case["iota"]))
     eta, bs, _ = pg.make_space(spl, c.npts[:3], c.splineDegrees[:3], pg.std_domain(c)[:3], period=(False, True, True))
     dz = eta[2][1] - eta[2][0]
@@ -95,11 +98,12 @@ def run_case(case):
         return result(SKIP, what="ill conditioned theta space")
     path = "fast" if bs[1].cubic_uniform else "general-p%d" % deg
     base = "order%d/%s/iota-%s/P%d" % (order, path, case["iota"], P)
-    cls, ev = set(), {"nodes_compared": 0, "identity_checks": 0, "order_checks": 0, "distributed_r_cases": 1 if P > 1 else 0, "multi_turn_shifts": 0}
+    cls, ev = set(), {"nodes_compared": 0, "identity_checks": 0, "order_checks": 0, "distributed_r_cases": 1 if P > 1 else 0, "multi_turn_shifts": 0,
+                      "z_origin_nonzero_cases": int(zMin != 0.0)}
     n = order + 1
     cands = [list(range(-(n // 2), n // 2 + 1))] if n % 2 else [list(range(s, s + n)) for s in range(-(n - 1), 1)]
     chosen = None
-    wit0 = {"case": case, "zMax": zMax, "rMin": c.rMin, "rMax": c.rMax}
+    wit0 = {"case": case, "zMin": zMin, "zMax": zMax, "rMin": c.rMin, "rMax": c.rMax}
     iota_all = c.iota(eta[0])
     # the layout the operator is built for: r distributed and stored first (the driver's choice), r distributed but stored
     # second (after z), or r stored last and not distributed at all (theta distributed) -- the local-index mapping must follow
